@@ -13,11 +13,11 @@ import (
 // Opts tunes the step generator.
 type Opts struct {
 	NVars       int
-	MaxPrec     int  // largest precision the generator asks for (quo/sqrt cost bound)
+	MaxPrec     int   // largest precision the generator asks for (quo/sqrt cost bound)
 	GapLimit    int64 // bound on the digit gap of sums
-	Prec0Bias   bool // force the receiver's precision to 0 before ~30% of the steps (C09)
-	Mutations   bool // include mutated gob payloads (C08)
-	NoRawBits   bool // exclude SetBitsExp (programs compared across builds keep it)
+	Prec0Bias   bool  // force the receiver's precision to 0 before ~30% of the steps (C09)
+	Mutations   bool  // include mutated gob payloads (C08)
+	NoRawBits   bool  // exclude SetBitsExp (programs compared across builds keep it)
 	MaxIntDigit int
 }
 
